@@ -11,6 +11,7 @@
 package main
 
 import (
+	"bufio"
 	"bytes"
 	"crypto"
 	"crypto/rand"
@@ -623,6 +624,273 @@ func verifyPhase(dir string) {
 	_ = net.IPv4len
 }
 
+// ---- timestamp cache (memcached) ----
+
+// fakeMemcache speaks the part of the memcached text protocol that
+// gomemcache uses (get/gets, set) over loopback TCP; the store is the
+// harness's, so entries can be inspected, replaced and removed between runs.
+type fakeMemcache struct {
+	ln    net.Listener
+	mu    sync.Mutex
+	store map[string][]byte
+	gets  []string // keys asked for, with "+" (found) or "-" (not found)
+	sets  []string
+	// failGet makes the server drop the connection on a get
+	failGet bool
+	failSet bool
+}
+
+func startMemcache() *fakeMemcache {
+	ln, err := net.Listen("tcp", "127.0.0.1:0")
+	if err != nil {
+		panic(err)
+	}
+	m := &fakeMemcache{ln: ln, store: map[string][]byte{}}
+	go func() {
+		for {
+			c, err := ln.Accept()
+			if err != nil {
+				return
+			}
+			go m.serve(c)
+		}
+	}()
+	return m
+}
+
+func (m *fakeMemcache) serve(c net.Conn) {
+	defer c.Close()
+	br := bufio.NewReader(c)
+	for {
+		line, err := br.ReadString('\n')
+		if err != nil {
+			return
+		}
+		f := strings.Fields(line)
+		if len(f) == 0 {
+			continue
+		}
+		switch f[0] {
+		case "get", "gets":
+			m.mu.Lock()
+			if m.failGet {
+				m.gets = append(m.gets, f[1]+"!")
+				m.mu.Unlock()
+				return
+			}
+			var out bytes.Buffer
+			for _, k := range f[1:] {
+				if v, ok := m.store[k]; ok {
+					m.gets = append(m.gets, k+"+")
+					fmt.Fprintf(&out, "VALUE %s 0 %d 1\r\n", k, len(v))
+					out.Write(v)
+					out.WriteString("\r\n")
+				} else {
+					m.gets = append(m.gets, k+"-")
+				}
+			}
+			m.mu.Unlock()
+			out.WriteString("END\r\n")
+			c.Write(out.Bytes())
+		case "set":
+			n := 0
+			fmt.Sscan(f[4], &n)
+			data := make([]byte, n+2)
+			if _, err := io.ReadFull(br, data); err != nil {
+				return
+			}
+			m.mu.Lock()
+			if m.failSet {
+				m.sets = append(m.sets, f[1]+"!")
+				m.mu.Unlock()
+				c.Write([]byte("SERVER_ERROR out of memory storing object\r\n"))
+				continue
+			}
+			m.store[f[1]] = append([]byte{}, data[:n]...)
+			m.sets = append(m.sets, f[1])
+			m.mu.Unlock()
+			c.Write([]byte("STORED\r\n"))
+		default:
+			c.Write([]byte("ERROR\r\n"))
+		}
+	}
+}
+
+// cachePhase: the memcached layer in front of the authorities. One RSA
+// signature is deterministic, so signing the same script twice asks the cache
+// for the same key. Explored: what the cache holds for that key when the
+// second signing asks {the token stored by the first signing, nothing,
+// garbage, a truncated token, a genuine token that belongs to another
+// signature, connection dropped} x whether the store accepts a new entry x
+// the authority's answer if it is asked {valid, wrong imprint, http-500}.
+// Whatever the cache says, the artifact carries a token only if that token
+// matches this signature, and signing fails only if neither the cache nor the
+// authority offered an acceptable one.
+func cachePhase(srv *httptest.Server, dir string) {
+	mcache := startMemcache()
+	defer mcache.ln.Close()
+	cfg := relicx.BaseConfig("file")
+	cfg.Keys["rsaA"].Timestamp = true
+	cfg.Timestamp = &config.TimestampConfig{Timeout: 10, URLs: []string{srv.URL + "/u0"}, Memcache: []string{mcache.ln.Addr().String()}}
+	relicx.Use(cfg)
+	bridge.ResetTimestamper()
+	defer bridge.ResetTimestamper()
+	tok, err := relicx.OpenTokenByKey(cfg, "rsaA")
+	if err != nil {
+		panic(err)
+	}
+	asked := 0
+	var authority behaviour
+	srvMu.Lock()
+	current = func(idx int, legacy bool, body []byte) (int, []byte, bool) {
+		asked++
+		return answer(authority, idx, legacy, body)
+	}
+	srvMu.Unlock()
+	sign := func(input, name string) (string, error) {
+		in := filepath.Join(dir, name)
+		out := filepath.Join(dir, "out-"+name)
+		os.Remove(out)
+		if err := os.WriteFile(in, []byte(input), 0o644); err != nil {
+			panic(err)
+		}
+		return out, relicx.SignStandalone(cfg, tok, relicx.SignReq{SigType: "ps", Key: "rsaA", Hash: crypto.SHA256, Flags: url.Values{}, In: in, Out: out})
+	}
+	scriptA := "Write-Host 'cache case A'\r\n"
+	scriptB := "Write-Host 'cache case B, another signature'\r\n"
+	// populate: A and B each signed once with a valid authority
+	authority = behaviours[0]
+	for _, s := range []string{scriptA, scriptB} {
+		if _, err := sign(s, "c.ps1"); err != nil {
+			fmt.Println("HARNESS-ERROR: cache phase: populating signing fails:", err)
+			os.Exit(2)
+		}
+	}
+	mcache.mu.Lock()
+	if len(mcache.sets) != 2 || mcache.sets[0] == mcache.sets[1] {
+		mcache.mu.Unlock()
+		run.Capped(fmt.Sprintf("timestamp cache: two signings stored %d entries; cache scenarios not explored", len(mcache.sets)))
+		return
+	}
+	keyA, keyB := mcache.sets[0], mcache.sets[1]
+	genuineA := append([]byte{}, mcache.store[keyA]...)
+	genuineB := append([]byte{}, mcache.store[keyB]...)
+	mcache.mu.Unlock()
+	// determinism: signing A again must ask for the same key
+	mcache.mu.Lock()
+	mcache.gets = nil
+	mcache.mu.Unlock()
+	if _, err := sign(scriptA, "c.ps1"); err != nil {
+		fmt.Println("HARNESS-ERROR: cache phase: re-signing fails:", err)
+		os.Exit(2)
+	}
+	mcache.mu.Lock()
+	hit := len(mcache.gets) == 1 && mcache.gets[0] == keyA+"+"
+	mcache.mu.Unlock()
+	if !hit {
+		run.Capped("timestamp cache: a repeated signature did not ask for the same cache key (signatures are not deterministic here); cache scenarios not explored")
+		return
+	}
+	entries := []struct {
+		name       string
+		value      []byte
+		acceptable bool // the cached value is a token that matches signature A
+		failGet    bool
+	}{
+		{"genuine-token-of-this-signature", genuineA, true, false},
+		{"absent", nil, false, false},
+		{"garbage", []byte("this is not a token"), false, false},
+		{"truncated-token", genuineA[:len(genuineA)/2], false, false},
+		{"genuine-token-of-another-signature", genuineB, false, false},
+		{"empty-value", []byte{}, false, false},
+		{"connection-dropped", genuineA, false, true},
+	}
+	auth := []behaviour{behaviours[0], {"wrong-imprint", false}, {"http-500", false}}
+	n := 0
+	for _, e := range entries {
+		for _, failSet := range []bool{false, true} {
+			for _, a := range auth {
+				mcache.mu.Lock()
+				delete(mcache.store, keyA)
+				if e.value != nil {
+					mcache.store[keyA] = e.value
+				}
+				mcache.failGet, mcache.failSet = e.failGet, failSet
+				mcache.gets, mcache.sets = nil, nil
+				mcache.mu.Unlock()
+				authority = a
+				asked = 0
+				out, serr := sign(scriptA, "c.ps1")
+				n++
+				run.Eval(1)
+				desc := fmt.Sprintf("timestamp cache holds %s for this signature, store accepts new entries: %v, authority would answer %s (asked %d time(s))", e.name, !failSet, a.Name, asked)
+				replay := map[string]any{"cache_entry": e.name, "store_fails": failSet, "authority": a.Name}
+				run.Distinct("cache|" + e.name + fmt.Sprint(failSet) + a.Name)
+				switch {
+				case e.acceptable:
+					// a matching cached token may be used, or the authority asked anyway
+					if serr != nil && (asked == 0 || a.Acceptable) {
+						run.Violation("ts-cache:fails-despite-matching-cached-token", desc+": "+serr.Error(), replay)
+						continue
+					}
+				case !a.Acceptable:
+					if serr == nil {
+						what := "an artifact"
+						if sigs, verr := relicx.Verify(out, relicx.TrustOpts()); verr != nil {
+							what = "an artifact relic's own verifier rejects (" + verr.Error() + ")"
+						} else if len(sigs) > 0 && sigs[len(sigs)-1].X509Signature.CounterSignature == nil {
+							what = "an artifact without timestamp"
+						}
+						run.Violation("ts-cache:succeeds-without-acceptable-timestamp:"+e.name, desc+": signing produced "+what, replay)
+						continue
+					}
+				default:
+					if serr != nil {
+						run.Violation("ts-cache:unusable-entry-not-bypassed:"+e.name, desc+": "+serr.Error(), replay)
+						continue
+					}
+					if asked == 0 {
+						run.Violation("ts-cache:unusable-entry-used:"+e.name, desc, replay)
+						continue
+					}
+				}
+				if serr != nil {
+					if _, err := os.Stat(out); err == nil {
+						run.Violation("ts-cache:artifact-left-after-failure", desc, replay)
+					}
+					run.Outcome("cache:" + e.name + ":refused")
+					continue
+				}
+				sigs, verr := relicx.Verify(out, relicx.TrustOpts())
+				if verr != nil || len(sigs) == 0 {
+					run.Violation("ts-cache:output-does-not-verify:"+e.name, fmt.Sprintf("%s: %v", desc, verr), replay)
+					continue
+				}
+				cs := sigs[len(sigs)-1].X509Signature.CounterSignature
+				if cs == nil {
+					run.Violation("ts-cache:timestamp-silently-omitted:"+e.name, desc, replay)
+					continue
+				}
+				// a poisoned entry must not survive a successful fall-through, and what is stored must be usable
+				mcache.mu.Lock()
+				stored, has := mcache.store[keyA]
+				mcache.mu.Unlock()
+				if has && !failSet && asked > 0 && a.Acceptable {
+					if _, err := pkcs7.Unmarshal(stored); err != nil {
+						run.Violation("ts-cache:unusable-entry-left-in-place:"+e.name, desc, replay)
+					}
+				}
+				if asked > 0 {
+					run.Outcome("cache:" + e.name + ":authority-asked")
+				} else {
+					run.Outcome("cache:" + e.name + ":served-from-cache")
+				}
+			}
+		}
+	}
+	run.Set("timestamp_cache_cases", n)
+}
+
 func main() {
 	relicx.Quiet()
 	log.SetOutput(io.Discard)
@@ -636,8 +904,9 @@ func main() {
 	defer srv.Close()
 	signPhase(srv, dir, false)
 	signPhase(srv, dir, true)
+	cachePhase(srv, dir)
 	verifyPhase(dir)
-	run.Rule("sign side: every sequence of authority behaviours (16 for RFC 3161, 9 for the legacy protocol) over 1-2 (thorough 3) configured URLs, explored as a choice tree that ends at the first acceptable answer, x 8 attach paths (5 with an RSA key, 3 with ECDSA P-256), through the real pipeline and HTTP client against a loopback authority; verify side: 3 leaf validity windows x {no token, valid token under either OID, token grafted from another signature} x 4 authorities x 7 attested times. states = executions; distinct_nontrivial = sign sequences with >=2 requests + verify cases. Hanging authorities: every sequence over {valid, http-500, never answers} for 2 (thorough 3) URLs under a 1 s client timeout, on one RFC 3161 and the legacy path")
+	run.Rule("sign side: every sequence of authority behaviours (16 for RFC 3161, 9 for the legacy protocol) over 1-2 (thorough 3) configured URLs, explored as a choice tree that ends at the first acceptable answer, x 8 attach paths (5 with an RSA key, 3 with ECDSA P-256), through the real pipeline and HTTP client against a loopback authority; verify side: 3 leaf validity windows x {no token, valid token under either OID, token grafted from another signature} x 4 authorities x 7 attested times. states = executions; distinct_nontrivial = sign sequences with >=2 requests + verify cases. Hanging authorities: every sequence over {valid, http-500, never answers} for 2 (thorough 3) URLs under a 1 s client timeout, on one RFC 3161 and the legacy path. Timestamp cache: a loopback memcached owned by the harness; 7 cache contents for this signature's key x store accepts / refuses new entries x 3 authority answers, through the real gomemcache client")
 	run.Assume("acceptable = status granted / granted-with-mods, nonce echoed, imprint (algorithm and value) equal to the digest of this signature value, token signature valid under the embedded authority certificate")
 	run.Assume("the authority's tokens are built by verif/tsa (validated against `openssl ts -verify` at development time); a hanging authority holds the request open until the client's own timeout (1 s, the smallest configurable) closes it: the only real-time wait in this check; when a healthy authority misses that timeout too the sequence is reported as not judged, never as a violation")
 	run.Finish()
